@@ -1,0 +1,20 @@
+//go:build verif
+// +build verif
+
+// Package verifc11 forwards to internal/cgen for the /verif C11 harness (the
+// toolchain never crashes or hangs), which lives in another module and so
+// cannot import an internal package directly. Compiled only with -tags verif.
+package verifc11
+
+import (
+	"github.com/google/wuffs/internal/cgen"
+
+	a "github.com/google/wuffs/lang/ast"
+	t "github.com/google/wuffs/lang/token"
+)
+
+// Generate is the C generator that `wuffs-c gen` hands to generate.Do, for a
+// non-base package: files must have passed check.Check with the same tm.
+func Generate(pkgName string, tm *t.Map, files []*a.File, genlinenum bool) ([]byte, error) {
+	return cgen.VerifGenerate(pkgName, tm, files, genlinenum)
+}
